@@ -1,5 +1,6 @@
 import CwPlus.Model.Cw4Group
 import CwPlus.Lemmas.Snapshot
+import CwPlus.Lemmas.Cw4Group
 /-!
 # C09 — cw4: totals and point-in-time weights always match the true history (cw4-group part)
 
@@ -146,27 +147,7 @@ theorem instantiate_sameBlock {msg : InstMsg} {h0 : Nat} {s0 : State} (hi : inst
   obtain ⟨_, adm, _, m, t, hc, rfl⟩ := hi
   exact ⟨createMembers_sameBlock _ hc, Cell.SameBlock.write _ _ _⟩
 
-/-! ### Histories -/
-
-/-- One call: block height, sender, message. -/
-structure Op where
-  height : Nat
-  sender : Addr
-  msg : Msg
-
-/-- One transaction (failed calls are rolled back). -/
-def stepOp (s : State) (op : Op) : State := step s op.height op.sender op.msg
-
-/-- A history of calls. -/
-def run (s : State) (ops : List Op) : State := ops.foldl stepOp s
-
-/-- Block heights never decrease along a history. -/
-def Ordered (ops : List Op) : Prop := ops.Pairwise (fun a b => a.height ≤ b.height)
-
-@[simp] theorem run_nil (s : State) : run s [] = s := rfl
-@[simp] theorem run_cons (s : State) (op : Op) (ops : List Op) : run s (op :: ops) = run (stepOp s op) ops := rfl
-theorem run_append (s : State) (ops ops' : List Op) : run s (ops ++ ops') = run (run s ops) ops' := by
-  simp [run, List.foldl_append]
+/-! ### Histories (`Op`, `stepOp`, `run`, `Ordered` are defined in `Lemmas/Cw4Group.lean`) -/
 
 theorem stepOp_sameBlock (s : State) (op : Op) :
     SnapMap.SameBlock s.members (stepOp s op).members op.height ∧ Cell.SameBlock s.total (stepOp s op).total op.height := by
